@@ -48,6 +48,7 @@ pub fn run(name: &str, seed: u64, rest: &[String]) -> String {
         "adpcm" => adpcm_oracle(seed),
         "dbc_paths" => dbc_paths(seed),
         "extract_paths" => extract_paths(seed),
+        "adt_water" => adt_water(seed),
         "mod_options" => mod_options(seed),
         "interop_dirs" => interop_dirs(),
         "cli_extract" => cli_extract(rest.first().map(|s| s.as_str()).unwrap_or("")),
@@ -1937,4 +1938,67 @@ fn interop_dirs() -> String {
         }
     }
     none("interop_dirs", files.len())
+}
+
+
+// ---- C14: MH2O water (bitmap / vertex / attribute combinations per layer) survives build -> serialise -> parse -----------
+fn adt_water(seed: u64) -> String {
+    use std::io::Cursor;
+    use wow_adt::api::ParsedAdt;
+    use wow_adt::builder::AdtBuilder;
+    use wow_adt::chunks::mh2o::{HeightDepthVertex, Mh2oAttributes, Mh2oChunk, Mh2oEntry, Mh2oHeader, Mh2oInstance, VertexDataArray};
+    use wow_adt::{parse_adt, AdtVersion};
+    let mut rng = Rng(seed ^ 0x4A20);
+    let mut tried = 0;
+    for version in [AdtVersion::WotLK, AdtVersion::Cataclysm, AdtVersion::MoP] {
+        for round in 0..6u32 {
+            let mut entries = vec![Mh2oEntry::default(); 256];
+            let mut picked: Vec<usize> = vec![0, 255, 7, 8];
+            for _ in 0..3 { picked.push((rng.next() % 256) as usize); }
+            picked.sort(); picked.dedup();
+            let mut shape = Vec::new();
+            for (k, &idx) in picked.iter().enumerate() {
+                let c = (rng.next() as u32).wrapping_add(round + k as u32) % 8;
+                let (with_bitmap, with_vertices, with_attr) = (c & 1 != 0, c & 2 != 0, c & 4 != 0);
+                let (w, h) = (1 + (rng.next() % 4) as u8, 1 + (rng.next() % 4) as u8);
+                let vd = if with_vertices {
+                    let mut grid: Box<[Option<HeightDepthVertex>; 81]> = Box::new([const { None }; 81]);
+                    for z in 0..=(h as usize) { for x in 0..=(w as usize) { grid[z * 9 + x] = Some(HeightDepthVertex { height: 1.0 + (z * 9 + x) as f32, depth: (z * 9 + x) as u8 }); } }
+                    Some(VertexDataArray::HeightDepth(grid))
+                } else { None };
+                entries[idx] = Mh2oEntry {
+                    header: Mh2oHeader { offset_instances: 0, layer_count: 1, offset_attributes: 0 },
+                    instances: vec![Mh2oInstance { liquid_type: 2 + k as u16, liquid_object_or_lvf: 0, min_height_level: k as f32, max_height_level: k as f32, x_offset: 0, y_offset: 0, width: w, height: h, offset_exists_bitmap: 0, offset_vertex_data: 0 }],
+                    vertex_data: vec![vd],
+                    exists_bitmaps: vec![if with_bitmap { Some(0x5A ^ (k as u64) << 1) } else { None }],
+                    attributes: if with_attr { Some(Mh2oAttributes { fishable: 0x00FF_00FF_00FF_00FF ^ k as u64, deep: 0x0F0F_0F0F_0F0F_0F0F }) } else { None },
+                };
+                shape.push(format!("#{}: {}x{} bitmap={} vertices={} attributes={}", idx, w, h, with_bitmap, with_vertices, with_attr));
+            }
+            let src = Mh2oChunk { entries };
+            let desc = format!("ADT {:?} with MH2O entries [{}]", version, shape.join("; "));
+            tried += 1;
+            let s2 = src.clone();
+            let r = catch(move || -> Result<Mh2oChunk, String> {
+                let bytes = AdtBuilder::new().with_version(version).add_texture("tileset/a.blp").add_water_data(s2).build().map_err(|e| format!("build: {}", e))?.to_bytes().map_err(|e| format!("serialise: {}", e))?;
+                match parse_adt(&mut Cursor::new(bytes)).map_err(|e| format!("parse of the serialised bytes: {}", e))? {
+                    ParsedAdt::Root(r) => r.water_data.clone().ok_or_else(|| "no MH2O in the parsed tile".to_string()),
+                    _ => Err("serialised root tile parsed as another kind".into()),
+                }
+            });
+            let got = match r { Err(p) => return fail("adt_water", desc, format!("panic: {}", p), "round trip".into()), Ok(Err(e)) => return fail("adt_water", desc, e, "round trip".into()), Ok(Ok(g)) => g };
+            for &idx in &picked {
+                let (a, b) = (&src.entries[idx], &got.entries[idx]);
+                if b.instances.len() != a.instances.len() { return fail("adt_water", desc, format!("entry {}: {} layers", idx, b.instances.len()), format!("{}", a.instances.len())); }
+                let (ia, ib) = (&a.instances[0], &b.instances[0]);
+                if (ib.liquid_type, ib.width, ib.height) != (ia.liquid_type, ia.width, ia.height) || ib.min_height_level != ia.min_height_level {
+                    return fail("adt_water", desc, format!("entry {}: layer type/size/level {:?}", idx, (ib.liquid_type, ib.width, ib.height, ib.min_height_level)), format!("{:?}", (ia.liquid_type, ia.width, ia.height, ia.min_height_level)));
+                }
+                if b.exists_bitmaps != a.exists_bitmaps { return fail("adt_water", desc, format!("entry {}: exists bitmap {:?}", idx, b.exists_bitmaps), format!("{:?}", a.exists_bitmaps)); }
+                if b.attributes.map(|x| (x.fishable, x.deep)) != a.attributes.map(|x| (x.fishable, x.deep)) { return fail("adt_water", desc, format!("entry {}: attributes changed", idx), "the written attributes".into()); }
+                if b.vertex_data[0].is_some() != a.vertex_data[0].is_some() { return fail("adt_water", desc, format!("entry {}: vertex data presence {}", idx, b.vertex_data[0].is_some()), format!("{}", a.vertex_data[0].is_some())); }
+            }
+        }
+    }
+    none("adt_water", tried)
 }
